@@ -76,6 +76,22 @@ Definition wrapper_ok (fns : list (string * (string * list (string * string)))) 
   let '(_, (_, (inner, _))) := e in
   existsb (String.eqb inner) symbolic_fns && match lookup inner fns with Some _ => true | None => false end.
 
+(* ---------- p_flags_to_string (to_str.rs): the one wrapper of another shape, written by hand.
+   `match p_flags < 8 { true => format!("{r}{w}{x}") with r/w/x = letter when p_flags & abi::PF_* != 0
+   else blank, false => format!("p_flags({p_flags:#x})") }`.  The three masks are looked up in the
+   constant table regenerated from abi.rs, so a changed PF_* constant changes this reading too. ---------- *)
+Definition flag_letter (tab : ctable) (c : string) (letter : string) (v : Z) : string :=
+  match const_val tab c with
+  | Some m => if Z.eqb (Z.land v m) 0 then " " else letter
+  | None => "?"
+  end.
+Definition p_flags_string (tab : ctable) (v : Z) : string :=
+  if Z.ltb v 8 then flag_letter tab "PF_R" "R" v ++ flag_letter tab "PF_W" "W" v ++ flag_letter tab "PF_X" "E" v
+  else "p_flags(" ++ hex0xl (Z.to_N v) ++ ")".
+(* the gABI reading: readable = bit 2, writable = bit 1, executable = bit 0 *)
+Definition p_flags_ref (v : Z) : string :=
+  (if Z.testbit v 2 then "R" else " ") ++ (if Z.testbit v 1 then "W" else " ") ++ (if Z.testbit v 0 then "E" else " ").
+
 (* ---------- #[repr(C)] layout on x86_64 (and every target with natural alignment of the fixed
    width integers): each field at the next multiple of its alignment, size rounded to the
    largest alignment ---------- *)
